@@ -142,16 +142,18 @@ def check_pair(acc, kind, z, zm, role, Tsign, m, b, E, mm, bm, Em, beta=None, ta
         acc.violation(f'C09/contact/{kind}', 'documented Hertz expression', case, {'got': got, 'ref': sc})
 
 
-def check_wheel(acc, alpha_deg, beta_deg, z, wheel_is_master, Tsign, m, b, d_worm, tag='full', decoy=None, aunit='deg'):
+def check_wheel(acc, alpha_deg, beta_deg, z, wheel_is_master, Tsign, m, b, d_worm, tag='full', decoy=None, aunit='deg', wheel_beta=None):
     """decoy: None | 'with' | 'without' -- a SECOND worm gear (other diameter / none) is the wheel's neighbour on the
     other side through a fixed joint (two-stage worm reducer): the formulas must use the worm the wheel is MATED with."""
     case = {'kind': 'wheel', 'alpha': alpha_deg, 'beta': beta_deg, 'z': z, 'wheel_is_master': wheel_is_master,
-            'Tsign': Tsign, 'm': m, 'b': b, 'd': d_worm, 'decoy': decoy, 'aunit': aunit}
+            'Tsign': Tsign, 'm': m, 'b': b, 'd': d_worm, 'decoy': decoy, 'aunit': aunit, 'wheel_beta': wheel_beta}
     try:
         # aunit: the unit the two angles are written in (the tabulated pressure angle converted by gearpy itself)
         def A(deg):
             return Angle(deg, 'deg') if aunit == 'deg' else Angle(deg, 'deg').to(aunit)
-        wh = WormWheel(name='wh', n_teeth=z, inertia_moment=J1, helix_angle=A(beta_deg),
+        # wheel_beta: the wheel is cut with another helix angle than the worm's lead angle (the library accepts the pair);
+        # the documented normal pitch takes the angle of the mating WORM gear
+        wh = WormWheel(name='wh', n_teeth=z, inertia_moment=J1, helix_angle=A(beta_deg if wheel_beta is None else wheel_beta),
                        pressure_angle=A(alpha_deg), module=L(m), face_width=L(b))
         wg = WormGear(name='wg', n_starts=2, inertia_moment=J1, helix_angle=A(beta_deg),
                       pressure_angle=A(alpha_deg), reference_diameter=L(d_worm))
@@ -415,6 +417,9 @@ def run_shard(shard, tier):
                                             for decoy in ('with', 'without'):
                                                 check_wheel(acc, a, beta, z, wm, Tsign, m, b, d, decoy=decoy)
                                                 acc.nstates += 1
+                                        if Tsign == 1 and z == 10 and m is not None and b is not None and d is not None and beta < ref.WORM_TABLE[a][0]:
+                                            check_wheel(acc, a, beta, z, wm, Tsign, m, b, d, wheel_beta=min(beta + 3.0, ref.WORM_TABLE[a][0]))
+                                            acc.nstates += 1
                                         if Tsign == -1 and m is not None and b is not None and d is not None:
                                             for au in ('rad', 'arcmin', 'arcsec', 'rot'):
                                                 check_wheel(acc, a, beta, z, wm, Tsign, m, b, d, aunit=au)
@@ -436,7 +441,7 @@ def replay(case):
     elif case.get('kind') == 'remate':
         check_remating(acc, case['gk'], case['z'], [tuple(x) for x in case['seq']])
     elif case.get('kind') == 'wheel':
-        check_wheel(acc, case['alpha'], case['beta'], case['z'], case['wheel_is_master'], case['Tsign'], case['m'], case['b'], case['d'], decoy=case.get('decoy'), aunit=case.get('aunit', 'deg'))
+        check_wheel(acc, case['alpha'], case['beta'], case['z'], case['wheel_is_master'], case['Tsign'], case['m'], case['b'], case['d'], decoy=case.get('decoy'), aunit=case.get('aunit', 'deg'), wheel_beta=case.get('wheel_beta'))
     else:
         return run_shard(case['shard'], 'quick').violations
     return acc.violations
